@@ -2059,6 +2059,10 @@ def render(name):
         reason = str(e)
     except (SyntaxError, OSError) as e:
         reason = f'{type(e).__name__}: {e}'
+    except Exception as e:  # noqa - a construct the translator stumbles over (KeyError, RecursionError … inside py2lean or a
+        # unit's own translator) is a source it cannot read: the unit is untranslatable, the run goes on (seeded change
+        # C20-v1 sent SrcIo's reader into unbounded recursion and ended the run with exit 2 instead of a verdict)
+        reason = f'translator error {type(e).__name__}: {str(e)[:200]}'
     stub = ('/-!\n# GENERATED by harness/py2lean.py — the current source could NOT be translated:\n'
             f'{reason}\n-/\n')
     return stub, reason
